@@ -225,6 +225,50 @@ theorem locate_no_error (c : Chain) (loc : List Nat) (stop skip maxNum : Nat) (g
       · rename_i hr; exact absurd hr (loop_no_error hc _ _)
       · simp
 
+/-- without wrap-around the response is the arithmetic progression `start, start+(skip+1), …`
+    clipped at the stop block: item `k` is the stop header or sits at height `start + k·(skip+1)` -/
+theorem locate_progression (c : Chain) (w : WF c) (loc : List Nat) (stop skip maxNum : Nat) (x : Header) (l : List Header) (sh : Header)
+    (hsh : c.byHash stop = some sh) (hnowrap : sh.height + skip < two64)
+    (h : locateHeaders c loc stop skip maxNum = .ok (x :: l)) :
+    ∀ k (hk : k < (x :: l).length), (x :: l)[k] = sh ∨ (x :: l)[k].height = x.height + k * (skip + 1) := by
+  have ⟨g, sh', hg, hsh', hc⟩ := locate_cases h
+  rw [hsh] at hsh'; cases hsh'
+  rcases hc with h0 | ⟨_, he, h1⟩ | ⟨hm, hlt, rest, hr, h2⟩
+  · cases h0
+  · cases h1; intro k hk; simp at hk; subst hk; exact Or.inr (by simp)
+  · cases h2
+    have ⟨p1, _⟩ := loop_progression w hnowrap _ _ _ hlt hr
+    intro k hk
+    cases k with
+    | zero => right; simp
+    | succ k =>
+      simp only [List.getElem_cons_succ]
+      rcases p1 k (by simpa using hk) with e | e
+      · exact Or.inl e
+      · right; rw [e]
+
+/-- a response shorter than `maxNum` ends exactly at the stop block -/
+theorem locate_reaches_stop (c : Chain) (w : WF c) (loc : List Nat) (stop skip maxNum : Nat) (x : Header) (l : List Header) (sh : Header)
+    (hsh : c.byHash stop = some sh) (hnowrap : sh.height + skip < two64) (h1 : 1 ≤ maxNum) (h2 : maxNum < two64)
+    (h : locateHeaders c loc stop skip maxNum = .ok (x :: l)) (hshort : (x :: l).length < maxNum) :
+    ((x :: l).getLast?).map (·.height) = some sh.height := by
+  have ⟨g, sh', hg, hsh', hc⟩ := locate_cases h
+  rw [hsh] at hsh'; cases hsh'
+  have hit : iterations maxNum = maxNum - 1 := by
+    unfold iterations
+    have : maxNum + two64 - 1 = (maxNum - 1) + two64 := by omega
+    rw [this, Nat.add_mod_right]; apply Nat.mod_eq_of_lt; omega
+  rcases hc with h0 | ⟨_, he, h1⟩ | ⟨hm, hlt, rest, hr, h2⟩
+  · cases h0
+  · cases h1; simp [he]
+  · cases h2
+    have ⟨_, p2⟩ := loop_progression w hnowrap _ _ _ hlt hr
+    rcases p2 with e | e
+    · cases l with
+      | nil => simp at e
+      | cons a r => rw [List.getLast?_cons_cons, e]; rfl
+    · exfalso; simp at hshort; omega
+
 /-! ### locateBlocks inherits (skip = 0, maxNum = 64) -/
 
 /-- a block response is a non-empty-preserving prefix of the header response for `skip = 0`, `maxNum = 64` -/
